@@ -132,6 +132,16 @@ func panicValueEq(got, want interface{}) bool {
 func (j *judgeCtx) matchFailure(e error, used map[*rt.CallEv]bool) *rt.CallEv {
 	var pe *cff.PanicError
 	isPanic := errors.As(e, &pe)
+	if !isPanic {
+		// identity first: a call may have returned a shared sentinel
+		// (context.DeadlineExceeded itself) that other calls' errors wrap
+		for i := range j.calls {
+			c := &j.calls[i]
+			if !used[c] && c.End == prog.OErr && c.Err != nil && sameErr(e, c.Err) {
+				return c
+			}
+		}
+	}
 	for i := range j.calls {
 		c := &j.calls[i]
 		if used[c] {
